@@ -56,6 +56,19 @@ CLAIMS = {
              "quantified as a schedule list, timeouts/OS errors are not modelled. Model follows fix commit 604b133.",
         technique="Coq proof (induction over read schedules) + correspondence on scripted sockets",
         design="4/C17"),
+    "C16": dict(
+        text="Coq theorems (axiom-free): for every valid date-time (year 1..9999, Gregorian calendar incl. leap "
+             "rules, any microsecond), every UTC offset of whole minutes within a day or none, and every clock status, "
+             "the model of datetime_to_bytes produces the 12-byte DLMS layout with deviation = minus the offset "
+             "(0x8000 for naive), and decoding that layout returns the same instant truncated to hundredths with the "
+             "same awareness and offset (offset zero stays aware) and the same status; and decoding is sound: "
+             "anything accepted has year/month/day-of-month/day-of-week/hour/minute/second/hundredths inside their "
+             "calendar ranges (so out-of-range fields are refused). Tie: correspondence + search over boundary-complete "
+             "instants, every offset -840..840, all status bytes, out-of-range mutations of every field.",
+        note="CPython datetime/dateutil are modelled (range + calendar validity, offsets as whole minutes), compared "
+             "with the implementation on every run. Model follows fix commits 9688ff1 (UTC offset 0) and 6d91df4 (validators).",
+        technique="Coq proof (symbolic round-trip + decode soundness) + correspondence + reference-layout search",
+        design="4/C16"),
 }
 
 NOT_YET = "not yet built in this stage of the work; see DESIGN.md section 6 (build order)"
